@@ -245,9 +245,11 @@ def reaching_definitions(fn_node, name, use, pm):
     for st, val, how in definitions(fn_node, name):
         if exclusive(st, use, pm, stop=fn_node):
             continue
-        if position(st) < position(use):
+        inside = isinstance(st, (ast.Assign, ast.AugAssign, ast.AnnAssign)) and st is not use and any(n is use for n in ast.walk(st))
+        if position(st) < position(use) and not inside:
             out.append((st, val, how))
             continue
+        # (a use inside the right-hand side of the defining statement itself is evaluated before the binding: only loop-carried)
         lu = {id(x) for x in enclosing_loops(use, pm, stop=fn_node)}
         ld = {id(x) for x in enclosing_loops(st, pm, stop=fn_node)}
         if lu & ld:
